@@ -23,9 +23,9 @@ import (
 // ---- cases ---------------------------------------------------------------------------
 
 type tcase struct {
-	op   *opDef
-	args []*big.Int // sent to the model
-	mode int        // aliasing / API variant, implementation only
+	op    *opDef
+	args  []*big.Int // sent to the model
+	mode  int        // aliasing / API variant, implementation only
 	extra []*big.Int // values produced by the implementation that the model judges (sampled values)
 }
 
